@@ -28,6 +28,16 @@ Theorem C19_guarded_every_interleaving : forall ct ts sched,
   (forall c, count_enter c (snd r) <= 1).
 Proof. exact guarded_safe. Qed.
 
+(* Exactly once: the bootstrap body of every class whose metadata is visible - in particular
+   of the class used by any finished thread, whatever its trigger - was entered exactly once. *)
+Theorem C19_body_exactly_once : forall ct ts sched,
+  wf_table ct -> fresh_threads ct ts ->
+  let r := run true ct sched (init_state ct ts) in
+  (forall c, c < length ct -> pub (getc c (classes (fst r))) <> None -> count_enter c (snd r) = 1) /\
+  (forall i t, nth_error (threads (fst r)) i = Some t -> t_ph t = Done ->
+               count_enter (t_tgt t) (snd r) = 1).
+Proof. exact guarded_exactly_once. Qed.
+
 (* No reachable state is a deadlock: while some thread is unfinished, some thread can move. *)
 Theorem C19_no_deadlock : forall ct ts sched,
   wf_table ct -> fresh_threads ct ts ->
@@ -89,6 +99,7 @@ Example C19_same_schedule_guarded :
 Proof. exact guarded_same_schedule. Qed.
 
 Print Assumptions C19_guarded_every_interleaving.
+Print Assumptions C19_body_exactly_once.
 Print Assumptions C19_no_deadlock.
 Print Assumptions C19_trigger_independent.
 Print Assumptions C19_wrapper_removal_restores_new.
